@@ -294,12 +294,14 @@ class CoreDriver:
             self.fault_plan[st[1]] = [st[2], st[3]]
             return True
         elif op == "release":
+            self.gate_plan.pop(st[1], None)
             f = self.held.pop(st[1], None)
             if f is None or f.done():
                 ok = False
             else:
                 f.set_result(None)
         elif op == "lrelease":
+            self.lgate_plan.pop(st[1], None)
             f = self.lheld.pop(st[1], None)
             if f is None or f.done():
                 ok = False
